@@ -226,6 +226,15 @@ func (v *Vue) evalPipe(ctx VueContext, expr pipeExpr) (any, error) {
 	var val any
 	var ok bool
 	val, ok = ctx.stack.Resolve(expr.initial)
+	if !ok && !helpers.IsVariablePath(expr.initial) {
+		// The head of the pipe is not a variable: a literal ("hello" | upper) or an
+		// expression ((a) | f). It is evaluated, not passed on as nil
+		result, err := v.exprEval.Eval(helpers.NormalizeComparisonOperators(expr.initial), ctx.stack.EnvMap())
+		if err != nil {
+			return nil, fmt.Errorf("in expression '%s': %w", expr.initial, err)
+		}
+		val, ok = result, true
+	}
 	if !ok {
 		if len(expr.segments) > 0 {
 			val = nil // Pass nil to first segment filter
